@@ -8,7 +8,8 @@ Two sources of truth, both read on every run:
     divisors and digit alphabet of utils.c, getBasePrefix and scratch-buffer sizes of parser.c,
     the multiplier *expressions* of units.c, kept as exact rationals).
 
-The functions of fifo.c are translated as a whole (not only tables) by translate/c2lean.py, called from generate().
+The functions of fifo.c are translated as a whole (not only tables) by translate/c2lean.py, the integer formatters of utils.c by
+translate/c2lean_intfmt.py, both called from generate().
 """
 import os, re, subprocess, sys, json
 from fractions import Fraction
@@ -346,9 +347,24 @@ def generate(cfg="A", builddir=None, outpath=None):
                 f.write(_c.stub("ScpiVerif.Gen.FifoC", failed["fifo_c"]))
         except Exception:
             pass
-    return {"changed": old != text or fifo_c.get("changed", False), "path": outpath, "failed": failed,
+    # C -> Lean translation of the integer formatters of utils.c (Gen/IntFmtC.lean): same treatment (translate/c2lean_intfmt.py)
+    intfmt_c = {"functions": [], "changed": False}
+    try:
+        import c2lean_intfmt
+        intfmt_c = c2lean_intfmt.generate(os.path.join(os.path.dirname(outpath), "IntFmtC.lean"))
+        if intfmt_c["failed"]:
+            failed["intfmt_c"] = "; ".join("%s: %s" % kv for kv in sorted(intfmt_c["failed"].items()))[:400]
+    except Exception as e:
+        failed["intfmt_c"] = ("c2lean_intfmt: %s: %s" % (type(e).__name__, e))[:400]
+        try:
+            import c2lean as _c
+            with open(os.path.join(os.path.dirname(outpath), "IntFmtC.lean"), "w") as f:
+                f.write(_c.stub("ScpiVerif.Gen.IntFmtC", failed["intfmt_c"]))
+        except Exception:
+            pass
+    return {"changed": old != text or fifo_c.get("changed", False) or intfmt_c.get("changed", False), "path": outpath, "failed": failed,
             "rows": {"errclass": len(errclass), "errdesc": len(errdesc), "units": len(unit_rows), "special": len(special),
-                     "fifo_c_functions": len(fifo_c.get("functions", []))}}
+                     "fifo_c_functions": len(fifo_c.get("functions", [])), "intfmt_c_functions": len(intfmt_c.get("functions", []))}}
 
 if __name__ == "__main__":
     cfg = sys.argv[1] if len(sys.argv) > 1 else "A"
